@@ -164,8 +164,8 @@ Proof. split; vm_compute; reflexivity. Qed.
 
 (* a comment line at the head of a loop body no longer decides the base indentation (623c615) *)
 Example sample_loop_leading_comment :
-  extract_loop_block lf_sample ["@for x in xs:"; "# note"; ""; "    item"; "@endfor"] 0
-  = POk (TLoop "x" "xs" [tnl; TText "item"; tnl] [], 5)
-  /\ extract_loop_block_cur lf_sample ["@for x in xs:"; "# note"; ""; "    item"; "@endfor"] 0
-  = POk (TLoop "x" "xs" [tnl; TText "    item"; tnl] [], 5).
+  extract_loop_block lf_sample ["@for x in xs:"; "# note"; "    item"; "@endfor"] 0
+  = POk (TLoop "x" "xs" [TText "item"; tnl] [], 4)
+  /\ extract_loop_block_cur lf_sample ["@for x in xs:"; "# note"; "    item"; "@endfor"] 0
+  = POk (TLoop "x" "xs" [TText "    item"; tnl] [], 4).
 Proof. split; vm_compute; reflexivity. Qed.
